@@ -48,3 +48,28 @@ CONTRACTS = [
         pure_results=PURE,
     ),
 ]
+
+# --------------------------------------------------------------------------------------------------------------
+# _get_token_start_idx, one iteration at the end of a line: a line that begins a parameter / return section in the
+# ReST or Google style ("the header is everything before the first section token") makes the scanner return the
+# start of that line.  The tokens are the property's (three styles), not read from the code's tables, so a table
+# that loses one fails here.  NumPy headings need the underline on the next line and are covered by the bounded
+# stand-in only.
+SECTION_STARTS = (":param", ":cvar", ":ivar", ":var", ":type", ":raises", ":return", ":rtype", "Args:", "Kwargs:", "Raises:", "Returns:")
+
+CONTRACTS.append(
+    Contract(
+        M + ":_get_token_start_idx#section-line-recognised",
+        src=M + ":_get_token_start_idx",
+        # the statements after `line = ...` and before `stack.clear()`
+        block=("line = ", "stack.clear()", "between"),
+        block_exit="return",
+        params={"line": "str", "idx": "int", "stack": "list:str", "doc_str": "str", "indent_amount": "int", "ch": "str"},
+        requires=[
+            " or ".join("startswith(line, %r)" % t for t in SECTION_STARTS),
+            "idx >= 0 and idx < length(doc_str)",
+        ],
+        ensures=["result == idx - n_count(stack)"],
+        pure_results=PURE,
+    )
+)
